@@ -202,7 +202,16 @@ pub fn judge(c: &FileCase, ev: &mut Local) -> Result<(), Fail> {
             let again = parse(c.fmt, rewritten).map_err(|p| Fail::new(format!("c17:{f}-parser-panics"), format!("re-parse: {p}")))?;
             match &again.parsed {
                 Ok((dbg2, rewritten2)) => {
-                    ensure!(dbg2 == dbg && rewritten2 == rewritten, format!("c17:{f}-write-parse-differs"), "{}: parse -> write -> parse gives a different structure: {} vs {}", c.label, dbg.chars().take(160).collect::<String>(), dbg2.chars().take(160).collect::<String>());
+                    // Text decoding is lossy by contract (C10): track bytes that are no text in any codepage decode to
+                    // U+FFFD, which is written as '?'. Such a file (only random bytes produce one) is compared after that
+                    // one normalisation; everything else must be equal as it stands.
+                    let lossy = dbg.contains('\u{fffd}');
+                    let (dbg, dbg2) = if lossy { (dbg.replace('\u{fffd}', "?"), dbg2.replace('\u{fffd}', "?")) } else { (dbg.clone(), dbg2.clone()) };
+                    let (dbg, dbg2) = (&dbg, &dbg2);
+                    if lossy {
+                        ev.class("undecodable-track-text (compared after U+FFFD -> '?')");
+                    }
+                    ensure!(dbg2 == dbg && (lossy || rewritten2 == rewritten), format!("c17:{f}-write-parse-differs"), "{}: parse -> write -> parse gives a different structure: {} vs {}", c.label, dbg.chars().take(160).collect::<String>(), dbg2.chars().take(160).collect::<String>());
                 },
                 Err(e) => fail!(format!("c17:{f}-own-output-rejected"), "{}: the parser rejects what the writer produced from a parsed file: {e}", c.label),
             }
